@@ -44,6 +44,7 @@ type senv struct {
 	fn     *ssa.Function // function whose locals may be named (own function only)
 	bound  map[string]bool
 	depth  int
+	callerEpoch int     // allocation clock of the caller just before the call
 	callerPtrs []string // non-nil when a callee contract is instantiated at a call site: fresh(x) also means distinct from these
 	callerSide bool
 	inQuant    bool
@@ -1019,9 +1020,8 @@ func (c *evalCtx) call(x *ast.CallExpr) *sv {
 		}
 		conj := []string{fmt.Sprintf("(> %s 0)", r), fmt.Sprintf("(not (existed %s))", r)}
 		if c.env.callerSide {
-			for _, p := range c.env.callerPtrs {
-				conj = append(conj, fmt.Sprintf("(distinct %s %s)", r, p))
-			}
+			// allocated during the call: newer than everything the caller knew, older than everything it allocates afterwards
+			conj = append(conj, fmt.Sprintf("(> (born %s) %d)", r, c.env.callerEpoch), fmt.Sprintf("(<= (born %s) %d)", r, c.env.callerEpoch+1))
 		}
 		return boolSV("(and " + strings.Join(conj, " ") + ")")
 	case "existed":
@@ -1215,7 +1215,7 @@ func (c *evalCtx) call(x *ast.CallExpr) *sv {
 		if c.t.opaquePreds[name] && c.t.dryRun == 0 {
 			return c.opaquePred(name, p, args)
 		}
-		ne := &senv{t: c.t, vars: map[string]*sv{}, lets: map[string]ast.Expr{}, depth: c.env.depth + 1, callerSide: c.env.callerSide, callerPtrs: c.env.callerPtrs, inQuant: c.env.inQuant, abstract: c.env.abstract}
+		ne := &senv{t: c.t, vars: map[string]*sv{}, lets: map[string]ast.Expr{}, depth: c.env.depth + 1, callerSide: c.env.callerSide, callerPtrs: c.env.callerPtrs, callerEpoch: c.env.callerEpoch, inQuant: c.env.inQuant, abstract: c.env.abstract}
 		ne.pkg = c.env.pkg
 		if p.Pkg != "" {
 			if pp := c.t.eng.pkgs[p.Pkg]; pp != nil {
@@ -1382,7 +1382,7 @@ func (c *evalCtx) quant(kind string, args []ast.Expr) *sv {
 	ne.inQuant = true
 	nc := *c
 	nc.env = ne
-	var rangeC, pattern string
+	var rangeC, pattern, seedSort, seedOff string
 	anchored := false
 	if anchor != nil {
 		// evaluate the base outside the binder to get offset & stride
@@ -1421,6 +1421,7 @@ func (c *evalCtx) quant(kind string, args []ast.Expr) *sv {
 			ne.vars[id.Name] = intSV(fmt.Sprintf("(- %s %s)", qv, off))
 			rangeC = fmt.Sprintf("(and (<= (+ %s %s) %s) (< %s (+ %s %s)))", off, lo, qv, qv, off, hi)
 			pattern = fmt.Sprintf("(select (select (select %s %s) %s)", c.t.H(c.cur, "H_"+ls), obj, qv)
+			seedSort, seedOff = smtSort(ls), fmt.Sprintf("(+ %s %s)", off, lo)
 			anchored = true
 		}()
 	}
@@ -1469,10 +1470,24 @@ func (c *evalCtx) quant(kind string, args []ast.Expr) *sv {
 		for _, p := range strings.Split(pat, "\x00") {
 			fmt.Fprintf(&ps, " :pattern (%s)", p)
 		}
-		return boolSV(fmt.Sprintf("(%s ((%s Int)) (! %s%s))", kind, qv, q, ps.String()))
+		qt := fmt.Sprintf("(%s ((%s Int)) (! %s%s))", kind, qv, q, ps.String())
+		if kind == "exists" && c.mode < 0 && anchored && seedSort != "" {
+			// An existential that has to be proved becomes, negated, a universal fact that E-matching only instantiates for
+			// cells that occur as ground terms. The first cells of the range are offered as candidate witnesses: the goal is
+			// weakened by nothing (seedp_* is true everywhere, prelude) but its negation now mentions those cells.
+			var seeds []string
+			for k := 0; k < existsSeeds; k++ {
+				seeds = append(seeds, fmt.Sprintf("(seedp_%s %s (+ %s %d)))", seedSort, pattern[:strings.LastIndex(pattern, " ")], seedOff, k))
+			}
+			qt = fmt.Sprintf("(or %s (not (and %s)))", qt, strings.Join(seeds, " "))
+		}
+		return boolSV(qt)
 	}
 	return boolSV(fmt.Sprintf("(%s ((%s Int)) %s)", kind, qv, q))
 }
+
+// existsSeeds: number of leading cells of the range offered as witnesses of an existential goal over a slice or array
+const existsSeeds = 24
 
 // findPattern picks the smallest application term `(f ... qv ...)` with f uninterpreted/select that has qv as a direct argument.
 func findPattern(body, qv string) string {
